@@ -241,4 +241,13 @@ CHECKS = {
         "note": "Half-join order typing (bounded side preserves the other side's order) is decided under C29.node.",
         "technique": "finite-domain evaluation of the type-level API + branch-guard / must-pass-through analysis on rustc MIR",
     },
+    "C13": {
+        "text": "Partial, static (necessary structure of 'each matching pair exactly once' on the incremental path, MIR of SymmetricHashJoin::pull, all paths): an item arriving on one side is "
+                "built into that side's own state and probed against the OTHER side's state, and the probe is confined to the `newly built` edge of build() (set semantics: a duplicate emits "
+                "nothing again); stored matches of BOTH states are popped before any upstream is polled and a popped match is returned; each of the four return sites takes the pair's left value "
+                "from the left side (components traced to the probe/pop result); HalfJoinState::clear of both state implementations resets every field. Multiset equality of the emitted pairs over "
+                "all interleavings, probe()'s own bookkeeping and the drain-then-enumerate path (NewTickJoinIter) are NOT decided.",
+        "note": "Added after the design phase: the first draft listed C13 as not applicable; these clauses are shape-visible necessary conditions (breaking one breaks the join).",
+        "technique": "dominance / branch-guard analysis and component-wise def-use tracing on rustc MIR",
+    },
 }
